@@ -155,8 +155,9 @@ var flowPlans = map[string]flowPlan{
 		return M{"caller": "cw", "cred": cred("basic"), "tok": M{"form": "issued", "id": at}}
 	}},
 	"introspectJWT": {op: "Introspect", class: "active", prep: func(d *opdrv.Driver) M {
-		at, _, _ := tokensFor(d, "cx")
-		return M{"caller": "cx", "cred": cred("basic"), "tok": M{"form": "issued", "id": at}}
+		// a client with JWT access tokens that is in the audience of its own tokens (cx's are meant for two resource servers)
+		at, _, _ := tokensFor(d, "cj")
+		return M{"caller": "cj", "cred": cred("assertion"), "tok": M{"form": "issued", "id": at}}
 	}},
 	"revokeOpaque": {op: "Revoke", class: "ok200", prep: func(d *opdrv.Driver) M {
 		at, _, _ := tokensFor(d, "cw")
